@@ -226,21 +226,11 @@ where
             let v: Vec<u64> = out.to_vec().iter().map(|x| x.val()).collect();
             format!("v{}", nats(&v))
         }
-        Op::Join(i) => {
+        Op::Join(i, k) => {
             let j = f.join.as_ref().expect("join is for List[String]");
-            let s = j.call(h(slots, *i), ",".into());
-            // "s1,s2" → v1,2
+            let s = j.call(h(slots, *i), super::SEPS[*k].into());
             let s: &str = s.as_ref();
-            if s.is_empty() {
-                // join of no strings and of one empty string coincide; elements are never empty here
-                "v".into()
-            } else {
-                let v: Option<Vec<u64>> = s.split(',').map(|p| p.strip_prefix('s')?.parse().ok()).collect();
-                match v {
-                    Some(v) => format!("v{}", nats(&v)),
-                    None => format!("unreadable join result {s:?}"),
-                }
-            }
+            super::show_str(s)
         }
     }
 }
